@@ -223,17 +223,24 @@ def fill(text, nm):
     return text
 
 
-def chain(items, pre=None):
-    """operand item1 [operand] item2 [operand] ...; pre[i] = prefix text before operand i."""
+OPERAND_FORMS = ["7", "'s1'", "(x9)", "(7)"]
+
+
+def chain(items, pre=None, forms=None):
+    """operand item1 [operand] item2 [operand] ...; pre[i] = prefix text before operand i;
+    forms[i] = literal text used for operand i instead of a fresh identifier (numbers, strings and
+    parenthesised operands take other branches of the prefix-operator code than words do)."""
     nm = Namer()
     pre = pre or {}
+    forms = forms or {}
     out, k = [], 0
 
     def operand():
         nonlocal k
         p = pre.get(k, "")
+        txt = forms.get(k) or nm.atom()
         k += 1
-        return (p + " " if p else "") + nm.atom()
+        return (p + " " if p else "") + txt
     out.append(operand())
     for (_, kind, text) in items:
         out.append(fill(text, nm))
@@ -258,6 +265,11 @@ def gen_cases(run, T, only=None):
                 cases.append({"dialect": d, "sql": chain([i], {0: p}), "stream": "single-prefix"})
                 if i[1] == "infix":
                     cases.append({"dialect": d, "sql": chain([i], {1: p}), "stream": "single-prefix"})
+                # the same with non-word operands after the prefix operator
+                for f in OPERAND_FORMS:
+                    cases.append({"dialect": d, "sql": chain([i], {0: p}, {0: f}), "stream": "single-prefix-form"})
+                    if i[1] == "infix":
+                        cases.append({"dialect": d, "sql": chain([i], {1: p}, {1: f}), "stream": "single-prefix-form"})
         # all ordered pairs
         for a in its:
             for b in its:
@@ -286,7 +298,8 @@ def gen_cases(run, T, only=None):
             for _ in range(6000 if thorough else 1200):
                 tr = [rng.choice(its) for _ in range(3)]
                 pre = {rng.randrange(4): rng.choice(pres)} if rng.random() < 0.4 else None
-                cases.append({"dialect": d, "sql": chain(tr, pre), "stream": "triple"})
+                forms = {rng.randrange(4): rng.choice(OPERAND_FORMS)} if rng.random() < 0.3 else None
+                cases.append({"dialect": d, "sql": chain(tr, pre, forms), "stream": "triple"})
         # random chains up to length 12
         for _ in range(1500 if thorough else 350):
             n = rng.randrange(4, 13)
